@@ -331,7 +331,9 @@ class FakeSnowflakeCursor:
                 sqlstate="22000",
             )
 
-        sql = transformed.sql(dialect="duckdb")
+        # comments are not passed on to duckdb: a quote inside a comment makes duckdb 1.0 replace the no-break
+        # (and other unicode) spaces inside the string literals that follow it by plain spaces
+        sql = transformed.sql(dialect="duckdb", comments=False)
         # what description describes: the statement whose result is returned, without the seeding statement
         describe_sql = sql
 
